@@ -50,6 +50,7 @@ type CheckCfg struct {
 	Assumptions []string           `json:"assumptions"`  // free text, copied into evidence
 	Outside     []string           `json:"outside"`      // free text: outside the claim
 	Overlays    map[string]string  `json:"src_overlays"`
+	CrossSolver []string `json:"cross_solver"` // thorough tier: these harnesses are re-run with z3 4.8.12 (pipe) and cvc5 and the verdicts compared
 	FuncStubs map[string]string `json:"func_stubs"` // engine-only replacement of a function under test by a harness function (native replay runs the real one)
 	HarnessFrom string `json:"harness_from"` // take the harness .go files from another property's directory
 	ValidateWitnesses int `json:"validate_witnesses"`
@@ -295,6 +296,37 @@ func cmdCheck(args []string) int {
 			}
 		}
 	}
+	// cross-solver diff (thorough tier): same harness, other back ends, verdicts and path counts must agree
+	var cross []map[string]interface{}
+	if *tier == "thorough" && *only == "" {
+		for _, name := range c.CrossSolver {
+			var ref *vexec.Stats
+			for _, r := range results {
+				if r.Name == name {
+					ref = r.St
+				}
+			}
+			fn := pkg.Func(name)
+			if ref == nil || fn == nil {
+				continue
+			}
+			for _, alt := range []string{"z3", "cvc5"} {
+				hc := *cfg
+				hc.Solver = alt
+				hc.Workers = 8
+				hc.PanicOK = contains(c.PanicOK, name)
+				st := vexec.RunHarness(prog, &hc, fn)
+				agree := st.Paths == ref.Paths && st.PathsDone == ref.PathsDone && len(st.Violations) == len(ref.Violations) && st.Unknowns == 0 && st.SolverErrors == 0
+				cross = append(cross, map[string]interface{}{"harness": name, "solver": alt, "paths": st.Paths, "paths_reference": ref.Paths, "violations": len(st.Violations), "agree": agree, "solver_s": round2(st.SolverTime.Seconds())})
+				fmt.Printf("cross-solver %-24s %-6s paths=%d (reference %d) violations=%d agree=%v\n", name, alt, st.Paths, ref.Paths, len(st.Violations), agree)
+				if !agree {
+					notes = append(notes, fmt.Sprintf("cross-solver disagreement on %s with %s", name, alt))
+					fmt.Printf("  INCONCLUSIVE: cross-solver disagreement on %s with %s\n", name, alt)
+				}
+			}
+		}
+	}
+	crossSolverResults = cross
 	// native validation of sampled witnesses (translator / oracle validation)
 	if c.ValidateWitnesses > 0 && !*noReplay {
 		for _, r := range results {
@@ -509,6 +541,7 @@ type nativeRunner struct {
 }
 
 var runner nativeRunner
+var crossSolverResults []map[string]interface{}
 
 func (r *nativeRunner) cleanup() {
 	if r.tmp != "" {
